@@ -107,9 +107,22 @@ def _respell(cmd, argv, cwd):
             argv[i] = "/".join(parts)
     if argv and os.path.isabs(argv[0]) and os.path.isdir(argv[0]) and not argv[0].endswith("/") and rng.random() < SPELL["root"]:
         root = argv[0]
-        k = rng.choice(["slash", "rel", "dotslash", "dot"])
+        k = rng.choice(["slash", "rel", "dotslash", "dot", "slashes", "dotdot"])
+        if k == "dotdot":
+            # the root reached through one of its own real sub folders: ROOT/sub/..
+            try:
+                subs = sorted(n for n in os.listdir(root) if n != "ascmhl" and os.path.isdir(os.path.join(root, n)) and not os.path.islink(os.path.join(root, n)))
+            except OSError:
+                subs = []
+            if subs:
+                argv[0] = root + "/" + rng.choice(subs) + "/.."
+            else:
+                k = "slash"
         if k == "slash":
             argv[0] = root + "/"
+        elif k == "slashes":
+            # redundant separators at the end ("$DIR/" + "/", completion + script concatenation) name the same folder
+            argv[0] = root + rng.choice(["//", "///", "/.//"])
         elif k == "rel":
             b = os.path.basename(root)
             argv[0], cwd = ("./" + b if b.startswith("-") else b), os.path.dirname(root)  # a leading dash would be read as an option
